@@ -1,17 +1,85 @@
 /-
   C14 — printing a parsed program and parsing it again yields the same program.
-  Status (partial): the printer is modelled exactly (Model/Print.lean, tied by text equality);
-  the pest parser is NOT modelled, so the round trip itself is established by exploration on the
-  real parser (harness `roundtrip`), not by proof. Proved here: the printer facts the round trip
-  hinges on — unary minus on a positive numeral is kept apart from a negative numeral, operands
-  of lower binding strength are parenthesised (so the printed text determines the operator
-  tree), a constraint always prints its `:-`.
-  Known finding: a symbol or predicate named `not` (accepted when no white space follows it)
-  is printed with a following space and then rejected.
+
+  The printer (Model/Print) and the parser (Model/AspParse: the PEG of grammar.pest read with
+  pest's rules, the tree builder of pest.rs, pest's Pratt parser) are both modelled and tied to
+  the Rust code by exact correspondence (suites `print`, `asp_parse`).
+
+  Proved here, for every program whose names have the lexical shape of the grammar and among
+  which no symbolic constant or predicate symbol is `not` (`Program.WF`):
+    `roundtrip`            parsing the printed text gives the program back,
+    `print_parse_print`    and printing that again gives the identical text.
+  The proof goes through the character level (`Proofs/AspLex` … `AspProgramRT`: every printed
+  token is lexed back, white space and the look-aheads `!integer`, `!negation`, `!"."` included) and
+  the pair level (`Proofs/PrattInv`: pest's Pratt algorithm inverts the printer's
+  parenthesisation, for all operator nestings, unary minus on numerals vs negative numerals,
+  intervals on either side).
+  Known finding (the excluded case): a symbol or predicate named `not` (accepted when no white
+  space follows it) is printed with a following space and then rejected.
 -/
 import AnthemModel.Model.Print
+import AnthemModel.Proofs.AspProgramRT
 namespace Anthem.C14
 open Asp
+
+/-- **Round trip.** For every well-formed program (every operator nesting and associativity,
+    unary minus on numerals, negative numerals, nested intervals, all three head kinds, empty
+    bodies, constraints): the printed text is accepted and parses to the identical tree. -/
+theorem roundtrip (p : Program) (h : p.WF) : parseProgram (printProgram p) = some p :=
+  parseProgram_printProgram p h
+
+/-- … and printing the re-parsed tree gives the identical text. -/
+theorem print_parse_print (p : Program) (h : p.WF) :
+    (parseProgram (printProgram p)).map printProgram = some (printProgram p) := by
+  rw [roundtrip p h]; rfl
+
+/-- The same for a tree in the image of the parser: if `text` is accepted with tree `p` and `p` is
+    well-formed, then the printed text of `p` is accepted, parses to `p`, and prints to itself. -/
+theorem accepted_text_roundtrip (text : String) (p : Program) (_hp : parseProgram text = some p) (h : p.WF) :
+    parseProgram (printProgram p) = some p ∧
+      (parseProgram (printProgram p)).map printProgram = some (printProgram p) :=
+  ⟨roundtrip p h, print_parse_print p h⟩
+
+/-- the term level on its own: the pair sequence of a printed term is Pratt-parsed back to the term -/
+theorem pratt_inverts_parenthesisation (t : Term) : pratt (flat t) = some t := pratt_flat_eq t
+
+/-- Non-vacuity: a program with a choice rule, a constraint with empty body, a fact, negation,
+    double negation, a comparison over an interval and nested arithmetic with a negative numeral and
+    a unary minus meets the hypothesis (so `roundtrip` applies to it). -/
+def sample : Program :=
+  [⟨.choice ⟨"p", [.var "X"]⟩, [.lit ⟨.neg, ⟨"q", [.bin .sub (.var "X") (.pre (.num (-1)))]⟩⟩,
+      .lit ⟨.negneg, ⟨"r", []⟩⟩, .cmp .le (.neg (.pre (.num 2))) (.bin .interval (.pre (.num 1)) (.bin .mul (.var "Y") (.pre (.sym "a"))))]⟩,
+   ⟨.falsity, []⟩,
+   ⟨.basic ⟨"_q1", [.pre .inf, .pre .sup]⟩, []⟩]
+
+theorem sample_wf : sample.WF := by
+  have sp : SymName "p".toList := Or.inl ⟨'p', [], rfl, by decide, by simp⟩
+  have sq : SymName "q".toList := Or.inl ⟨'q', [], rfl, by decide, by simp⟩
+  have sr : SymName "r".toList := Or.inl ⟨'r', [], rfl, by decide, by simp⟩
+  have sa : SymName "a".toList := Or.inl ⟨'a', [], rfl, by decide, by simp⟩
+  have s1 : SymName "_q1".toList := Or.inr ⟨'q', ['1'], rfl, by decide, by decide⟩
+  have vx : VarName "X".toList := ⟨'X', [], rfl, by decide, by simp⟩
+  have vy : VarName "Y".toList := ⟨'Y', [], rfl, by decide, by simp⟩
+  intro r hr
+  simp only [sample, List.mem_cons, List.mem_nil_iff, or_false] at hr
+  rcases hr with rfl | rfl | rfl
+  · refine ⟨⟨sp, by decide, ?_⟩, ?_⟩
+    · intro t ht; simp only [List.mem_cons, List.mem_nil_iff, or_false] at ht; subst ht; exact vx
+    · intro b hb
+      simp only [List.mem_cons, List.mem_nil_iff, or_false] at hb
+      rcases hb with rfl | rfl | rfl
+      · refine ⟨sq, by decide, ?_⟩
+        intro t ht; simp only [List.mem_cons, List.mem_nil_iff, or_false] at ht; subst ht
+        exact ⟨vx, trivial⟩
+      · exact ⟨sr, by decide, fun t ht => by cases ht⟩
+      · exact ⟨trivial, trivial, vy, sa, by decide⟩
+  · exact ⟨trivial, fun b hb => by cases hb⟩
+  · refine ⟨⟨s1, by decide, ?_⟩, fun b hb => by cases hb⟩
+    intro t ht
+    simp only [List.mem_cons, List.mem_nil_iff, or_false] at ht
+    rcases ht with rfl | rfl <;> trivial
+
+example : parseProgram (printProgram sample) = some sample := roundtrip sample sample_wf
 
 /-- `-(n)` for a positive numeral is printed with parentheses, the numeral `-n` without: the two
     trees the parser distinguishes get different texts. -/
